@@ -156,7 +156,9 @@ inductive Op (α : Type) where
   | startProcessing
   /-- `process` on `len` frames (audio thread) -/
   | process (len : Nat) (dt : α) (info : Info α)
-  /-- one iteration of the decoder loop (decoder thread) -/
+  /-- one iteration of the decoder loop (decoder thread) — if the thread still exists: it ends for good when
+      `run` reaches the end of the data (a thread that ended because it saw `Stopped` would only see `Stopped`
+      again, so for it another iteration changes nothing) -/
   | decode
 
 namespace Sys
@@ -419,7 +421,7 @@ def step (D : Decoder σ α) (fuel : Nat) (s : Sys σ α) : Op α → Except Fau
   | .popError => .ok ((popError s).2, [])
   | .startProcessing => .ok (s.onStartProcessing, [])
   | .process len dt info => s.process fuel len dt info
-  | .decode => .ok ((threadIter D fuel s).2, [])
+  | .decode => .ok (if s.reachedEnd then s else (threadIter D fuel s).2, [])
 
 /-- a history: final state and everything written to the output, or the first fault of the audio thread -/
 def runOps (D : Decoder σ α) (fuel : Nat) (s : Sys σ α) : List (Op α) →
